@@ -329,9 +329,10 @@ class C13Monitor(Monitor):
         R = run.R
         pd = model.pData
         n = c['n']
+        self.sched = getattr(run, 'active_schedule', self.sched)
         Texp = precip.schedule_eval(self.sched, float(pd.time[n]))
         R.check('c13.recorded_T', abs(pd.temperature[n] - Texp) <= 1e-9 * max(1.0, abs(Texp)),
-                _mech(run, model, None, schedule=self.sched['kind'], via=run.temperature_via),
+                _mech(run, model, None, schedule=self.sched['kind'], via=run.temperature_via, stage_gt0=c['segment'] > 0 and bool(run.cfg.get('stage_schedules'))),
                 step=c['step'], time=pd.time[n], recorded=pd.temperature[n], expected=Texp)
         if len(model.elements) == 1:
             # table staleness: temperature of the most recent full/partial table build
